@@ -247,7 +247,12 @@ def run_check(prop, modname, tier, seed):
     spent = 0.0
     for i, f in enumerate(families):
         remaining_w = sum(weights[i:])
-        fam_budget = max(2.0, (budget - spent) * weights[i] / remaining_w)
+        left_total = max(0.0, budget - spent)
+        share = left_total * weights[i] / remaining_w
+        # unused time flows forward; a family may exceed its share (x3 in the quick tier, whose families are sized
+        # to complete) as long as 3 s per remaining family stay reserved
+        slack = 3.0 if tier == 'quick' else 1.5
+        fam_budget = max(3.0, min(share * slack, left_total - 3.0 * (len(families) - i - 1)))
         ft = time.time()
         acc, completed = explore_family(modname, f['name'], f.get('params', {}), seed, fam_budget, procs,
                                         funcs=funcs if i < 3 else None)
